@@ -28,6 +28,7 @@ EXPLANATION = (
     "propagate (no handler between verdict and phase wrapper) and every exceptional exit of the phase passes the closer "
     "(with C07.R2 the stop callback cannot fire). Behaviour under response order/chunking is not decided."
     " Added: after the responses arrived nothing ends the exchange before each verdict; R5 the parameter object the verdicts read is the client's live one (bound once, by reference, updated in place); the client passes the caller's login flag through unchanged."
+    ' Also: the login flag is never rebound on its way to the exchange.'
 )
 ASSUMPTIONS = ["C07.R2 (stop callback gated on was-connected)", "C11 (the collector returns the responses in arrival order)"]
 
